@@ -98,22 +98,27 @@ CONFIGS = {
     # analysis of a collected archive: the broker holds a SerializedArchiveContext and components loaded
     # from the archive (seeded); dr.run drops their direct dependencies from the graph
     "arch3": dict(N=3, kinds=["plain"], outs=["val"], items=2, grp=1, seeded=True, arch=[True]),
+    # a free-standing datasource and a spec meet in one consumer; two implementations of one spec both fail
+    "faultsP": dict(N=3, kinds=["datasource", "point"], outs=["val", "crash", "cmd"], items=1, grp=2, ss=[False, True]),
     "faults3c": dict(N=3, kinds=["datasource", "combiner", "point"], outs=["val", "content", "timeout", "crash"],
                      items=1, grp=2, ss=[False, True]),
 }
 
 PLAN = {
     "C01": dict(quick=["shapes3", "seeds3", "arch3"], thorough=["shapes3", "seeds3", "lin4", "ignore3", "oog3", "arch3"],
-                drivers=["forced", "run", "closure", "incr"]),
+                drivers=["forced", "run", "closure", "incr", "group", "afterincr"]),
     "C02": dict(quick=["kinds3q", "miss3q", "dis3q"], thorough=["kinds3", "rules3", "miss3q", "dis3q", "shapes3", "ignore3"],
                 drivers=["forced", "run"]),
     "C03": dict(quick=["faults3q", "faults3c", "elems3"], thorough=["faults3", "faults3b", "faults3c", "faults4", "rules3", "elems3full"],
                 drivers=["forced", "run"]),
-    "C04": dict(quick=["lin4", "oog3", "arch3"], thorough=["lin4", "oog3", "arch3", "seeds3", "faults3q", "shapes3", "miss3q"],
+    "C04": dict(quick=["lin4", "oog3", "arch3", "faultsP"], thorough=["lin4", "oog3", "arch3", "faultsP", "seeds3", "faults3q", "shapes3", "miss3q"],
                 drivers=["forced", "run", "incr", "pool2", "pool3s"],
                 model_only=dict(quick=["pool4a"], thorough=["pool4a", "pool4b", "pool3"])),
 }
 
+# a second, narrower simulation for C03: stand-alone datasources, specs and their consumers with hard failures
+SIMF = dict(N=4, kinds=["datasource", "point", "combiner", "parser"], outs=["val", "crash", "cmd"],
+            eouts=["val", "crash"], items=2, grp=2, ss=[False, True])
 SIM = dict(arch=[False, True], N=5, kinds=["plain", "datasource", "parser", "combiner", "rule", "condition", "point"],
            outs=["val", "none", "list", "skip", "content", "cmd", "timeout", "crash"],
            eouts=["val", "none", "skip", "content", "cmd", "crash"], items=3, grp=2, seeded=True,
@@ -277,6 +282,12 @@ def run(prop, tier):
     cfgp = os.path.join(gen, "DrEngineMC_sim.cfg")
     with open(cfgp, "w") as f:
         f.write(cfg_text(SIM, True, sim=True))
+    if prop == "C03":
+        cfgf = os.path.join(gen, "DrEngineMC_simf.cfg")
+        with open(cfgf, "w") as f:
+            f.write(cfg_text(SIMF, True, sim=True))
+        jobs.append(("simf", "DrEngineMC", cfgf, dict(simulate=3000 if tier == "quick" else 30000, depth=40,
+                                                      tlc_seed=lib.seed() + 23, workers=1)))
     # (RandomElement draws from one seeded stream: several simulation workers would emit the same cases)
     jobs.append(("sim", "DrEngineMC", cfgp, dict(simulate=nsim, depth=40, tlc_seed=lib.seed() + 17, workers=1)))
 
